@@ -239,6 +239,21 @@ func c08Run(t *rapid.T, salt string, stakes []int64, ops []c08Op, nu c08Nuisance
 				block()
 				break
 			}
+			if !labels["validatorMissing>=2Chains"] {
+				// make sure somebody lacks several chains when the jailing height comes: validator A keeps eth-main and one
+				// of the three others
+				v := c.Vals[op.A%n]
+				var infos []*vtypes.ExternalChainInfo
+				for j, ec := range c08Chains {
+					if j > 0 && j != 1+op.L[0]%3 {
+						continue
+					}
+					ea := chain.EthAddr(v.EthKeys[ec.RefID])
+					infos = append(infos, &vtypes.ExternalChainInfo{ChainType: "evm", ChainReferenceID: ec.RefID, Address: ea.Hex(), Pubkey: ea.Bytes()})
+				}
+				labels["validatorMissing>=2Chains"] = true
+				block(c.MustSign(v.Actor, &vtypes.MsgAddExternalChainInfoForValidator{Metadata: chain.MD(v.Actor), ChainInfos: infos}))
+			}
 			for c.H <= target {
 				block()
 			}
